@@ -179,6 +179,84 @@ def explore_world(task):
     return res
 
 
+def explore_state_mode(task):
+    """Colang 1.0 conversations continued through the `state` object, with per-turn generation options:
+    a turn may disable the output rails (and may be blocked by the input rail, which utters a predefined
+    refusal); whatever happened before, a later turn with output rails enabled must run them in full."""
+    _tag, dialog, turns = task
+    res = {"worlds": 1, "turns": 0, "conversations": 0, "rejections": 0, "rewrites": 0, "llm_text_turns": 0,
+           "turns_after_a_block_or_rewrite": 0, "rail_calls": 0, "viol": []}
+    world = rw.v1_world(in_order=("in1",), out_order=("out1",), dialog=dialog)
+    info0 = {"engine": "E3-world", "prop": "C02", "version": "1.0", "mode": "state-continued", "dialog": dialog}
+    choices = []
+    for in_v in ("A", "R"):
+        for out_on in (True, False):
+            for out_v in (("A", "R", "W") if (in_v == "A" and out_on) else ("A",)):
+                choices.append((in_v, out_on, out_v))
+    nonce = [0]
+
+    def expand(state, t, hist, disturbed):
+        if t > turns:
+            res["conversations"] += 1
+            return
+        for in_v, out_on, out_v in choices:
+            nonce[0] += 1
+            user_text = f"U{t}x{nonce[0]}q hello"
+            verdicts = {"in1": in_v, "out1": "R" if out_v == "R" else ("A" if out_v == "A" else ("W", f"RWout1t{t}x{nonce[0]}q rewritten"))}
+            options = {"rails": ["input", "dialog", "retrieval"] + (["output"] if out_on else [])}
+            turn = rw.run_turn(world, [{"role": "user", "content": user_text}], verdicts, llm_fn_for("llm", "1.0"), options=options, state=state)
+            res["turns"] += 1
+            step = {"t": t, "in": in_v, "output_rails_enabled": out_on, "out": out_v}
+            info = dict(info0, history=hist + [step])
+
+            def bad(sig, what):
+                res["viol"].append((f"{sig}:v1:state-continued" + (":after-block-or-disabled-turn" if disturbed else ""), what, info))
+
+            if turn.exc is not None:
+                bad("generate-raised", f"{turn.exc!r}")
+                continue
+            out_calls = [(a["rail"], a["text"]) for a in turn.actions if a.get("rail") in rw.OUT_RAILS]
+            res["rail_calls"] += len(out_calls)
+            gen = [c for c in turn.llm_calls if "LLMTEXT-" in str(c.get("answer", ""))]
+            now = disturbed or in_v == "R" or not out_on or out_v != "A"
+            if disturbed:
+                res["turns_after_a_block_or_rewrite"] += 1
+            if in_v == "A" and gen and out_on:
+                res["llm_text_turns"] += 1
+                llm_text = gen[-1]["answer"].strip().strip('"')
+                if out_calls != [("out1", llm_text)]:
+                    bad("output-rail-sequence", f"LLM text {llm_text!r} with output rails enabled: rails invoked {out_calls}; reply {turn.text!r}")
+                elif out_v == "R":
+                    res["rejections"] += 1
+                    if turn.text != "REFUSED-out1" or llm_text in (turn.text or ""):
+                        bad("rejected-text-in-reply", f"out1 rejected {llm_text!r}; reply {turn.text!r}")
+                elif out_v == "W":
+                    res["rewrites"] += 1
+                    if turn.text != verdicts["out1"][1]:
+                        bad("reply-is-not-the-checked-text", f"expected the rewritten text, got {turn.text!r}")
+                elif turn.text != llm_text:
+                    bad("reply-is-not-the-checked-text", f"expected {llm_text!r}, got {turn.text!r}")
+            elif in_v == "A" and gen and not out_on and out_calls:
+                bad("disabled-output-rails-ran", f"{out_calls}")
+            expand(turn.reply.state, t + 1, hist + [step], now)
+
+    expand({}, 1, [], False)
+    seen, uniq = set(), []
+    for v in res["viol"]:
+        if v[0] not in seen:
+            seen.add(v[0])
+            uniq.append(v)
+    res["viol"] = uniq
+    res["sample"] = dict(info0, turns=res["turns"])
+    return res
+
+
+def dispatch(task):
+    if task[0] == "state-mode":
+        return explore_state_mode(task)
+    return explore_world(task)
+
+
 def tasks(tier):
     out = []
     plan = [(2, 2)] if tier == "quick" else [(3, 2), (2, 3)]
@@ -193,6 +271,8 @@ def tasks(tier):
                             continue
                         seen.add(key)
                         out.append((version, order, dialog, exc, turns))
+    for dialog in (False, True):
+        out.append(("state-mode", dialog, 2 if tier == "quick" else 3))
     return out
 
 
@@ -203,7 +283,7 @@ def run(rep, tier):
     ts = tasks(tier)
     agg = {}
     n = 0
-    for r in par.pmap(explore_world, ts):
+    for r in par.pmap(dispatch, ts):
         n += 1
         for k, v in r.items():
             if isinstance(v, int):
